@@ -1,8 +1,8 @@
 package sym
 
 import (
-	"os"
 	"golang.org/x/tools/go/ssa"
+	"os"
 )
 
 // computeIPDom computes immediate post-dominators; blocks whose ipdom is the
